@@ -434,6 +434,170 @@ func frameMutations(valid []byte) []mut {
 	return ms
 }
 
+// ---- "length lands on another element boundary" mutations -------------------------------------------------
+
+func i32at(b []byte, i int) int64 { return int64(int32(binary.BigEndian.Uint32(b[i : i+4]))) }
+
+// chainMutations: sequences of elements framed as [8 bytes][int32 length][length bytes] (legacy message blocks,
+// record batches) that exactly fill the buffer or a 4-byte-length-prefixed region of it (the records of a fetch
+// response block).  The length of every element is set so that it ends on the boundary of each LATER sibling
+// (swallowing one or more whole siblings) and on the end of the region.
+func chainMutations(valid []byte) []mut {
+	var ms []mut
+	n := len(valid)
+	walk := func(from, end int) []int { // element starts, nil unless the chain fills [from,end) with >= 2 elements
+		var starts []int
+		p := from
+		for p+12 <= end {
+			l := i32at(valid, p+8)
+			if l < 0 || int64(p)+12+l > int64(end) {
+				return nil
+			}
+			starts = append(starts, p)
+			p += 12 + int(l)
+		}
+		if p != end || len(starts) < 2 {
+			return nil
+		}
+		return starts
+	}
+	type region struct{ from, end int }
+	regions := []region{{0, n}}
+	for i := 0; i+4 <= n; i++ {
+		v := i32at(valid, i)
+		if v >= 24 && int64(i)+4+v <= int64(n) {
+			regions = append(regions, region{i + 4, i + 4 + int(v)})
+		}
+	}
+	seen := map[region]bool{}
+	for _, r := range regions {
+		if seen[r] {
+			continue
+		}
+		seen[r] = true
+		starts := walk(r.from, r.end)
+		if starts == nil {
+			continue
+		}
+		bounds := append(append([]int{}, starts[1:]...), r.end)
+		for a, st := range starts {
+			for _, b := range bounds[a+1:] { // a later boundary than the element's own end
+				ms = append(ms, mut{"chain-length-to-sibling-boundary", with(valid, st+8, be32(uint32(b-(st+12))), 4)})
+			}
+			// and shrunk so that the NEXT element would start inside this one, on its key / value boundary
+			if own := int(i32at(valid, st+8)); own > 4 {
+				ms = append(ms, mut{"chain-length-shrunk", with(valid, st+8, be32(uint32(own-4)), 4)})
+			}
+		}
+	}
+	return ms
+}
+
+// genericBoundaryMutations: schema-free version for every length-prefixed element: each plausible 4-byte or
+// 2-byte length field (0 <= v, field end + v inside the buffer) is set so that its element ends where ANOTHER
+// plausible element ends (the nearest 12 larger and 4 smaller ends).
+func genericBoundaryMutations(valid []byte) []mut {
+	var ms []mut
+	n := len(valid)
+	type field struct{ pos, width, end int }
+	var fields []field
+	endSet := map[int]bool{n: true}
+	for i := 0; i+2 <= n; i++ {
+		if i+4 <= n {
+			if v := i32at(valid, i); v >= 0 && int64(i)+4+v <= int64(n) {
+				fields = append(fields, field{i, 4, i + 4 + int(v)})
+				if v > 0 {
+					endSet[i+4+int(v)] = true
+				}
+			}
+		}
+		if v := int(int16(binary.BigEndian.Uint16(valid[i : i+2]))); v > 0 && i+2+v <= n {
+			fields = append(fields, field{i, 2, i + 2 + v})
+			endSet[i+2+v] = true
+		}
+	}
+	var ends []int
+	for e := range endSet {
+		ends = append(ends, e)
+	}
+	sort.Ints(ends)
+	for _, f := range fields {
+		idx := sort.SearchInts(ends, f.end)
+		put := func(e int) {
+			v := e - (f.pos + f.width)
+			if v < 0 || e == f.end {
+				return
+			}
+			if f.width == 4 {
+				ms = append(ms, mut{"length-to-other-boundary32", with(valid, f.pos, be32(uint32(v)), 4)})
+			} else if v <= 0x7fff {
+				ms = append(ms, mut{"length-to-other-boundary16", with(valid, f.pos, be16(uint16(v)), 2)})
+			}
+		}
+		for k, c := idx, 0; k < len(ends) && c < 12; k++ {
+			if ends[k] > f.end {
+				put(ends[k])
+				c++
+			}
+		}
+		for k, c := idx-1, 0; k >= 0 && c < 4; k-- {
+			if ends[k] < f.end {
+				put(ends[k])
+				c++
+			}
+		}
+	}
+	return ms
+}
+
+// recordBoundaryMutations: an uncompressed v2 record batch at offset `at`: the varint length of record i is
+// enlarged to cover the following record(s) as well (and shrunk by the size of its last field); batch length and
+// CRC-32C are recomputed, so the batch is intact as far as its checksum goes and only the record length lies.
+func recordBoundaryMutations(valid []byte, at int) []mut {
+	var ms []mut
+	if at+61 > len(valid) || valid[at+16] != 2 {
+		return nil
+	}
+	batchLen := int(i32at(valid, at+8))
+	end := at + 12 + batchLen
+	if batchLen < 49 || end > len(valid) || valid[at+22]&0x07 != 0 { // attributes low byte: codec none only
+		return nil
+	}
+	type rec struct{ start, lenSize, length int }
+	var recs []rec
+	for p := at + 61; p < end; {
+		l, k := binary.Varint(valid[p:end])
+		if k <= 0 || l < 0 || p+k+int(l) > end {
+			return nil
+		}
+		recs = append(recs, rec{p, k, int(l)})
+		p += k + int(l)
+	}
+	rebuild := func(i int, newLen int64) []byte {
+		r := recs[i]
+		lf := putVarint(newLen)
+		out := append([]byte{}, valid[:r.start]...)
+		out = append(out, lf...)
+		out = append(out, valid[r.start+r.lenSize:]...)
+		delta := len(lf) - r.lenSize
+		copy(out[at+8:], be32(uint32(batchLen+delta)))
+		crc := sarama.VerifC10Crc(true, out[at+21:end+delta])
+		copy(out[at+17:], be32(crc))
+		return out
+	}
+	for i := range recs {
+		cover := recs[i].length
+		for j := i + 1; j < len(recs); j++ {
+			cover += recs[j].lenSize + recs[j].length
+			ms = append(ms, mut{"record-length-to-sibling-boundary", rebuild(i, int64(cover))})
+		}
+		if recs[i].length > 1 {
+			ms = append(ms, mut{"record-length-shrunk", rebuild(i, int64(recs[i].length-1))})
+		}
+	}
+	return ms
+}
+
 func patName(v, rem int64) string {
 	switch {
 	case v == rem+1:
@@ -514,7 +678,7 @@ func buildSamples(perPair int, allCodecs bool) []sample {
 						}
 						continue
 					}
-					if len(b) > 700 {
+					if len(b) > 1500 {
 						continue
 					}
 					// distinct samples only
@@ -777,6 +941,20 @@ func opsForSample(s sample, budgetExtra int) []entryOp {
 	if e.Decomp {
 		for _, m := range frameMutations(s.valid) {
 			out = append(out, mk(m.kind, m.data))
+		}
+	}
+	// a length field that lands on the boundary of ANOTHER element (swallowing or splitting siblings)
+	for _, m := range chainMutations(s.valid) {
+		out = append(out, mk(m.kind, m.data))
+	}
+	for _, m := range genericBoundaryMutations(s.valid) {
+		out = append(out, mk(m.kind, m.data))
+	}
+	if e.Decomp {
+		for at := 0; at+61 <= len(s.valid); at++ {
+			for _, m := range recordBoundaryMutations(s.valid, at) {
+				out = append(out, mk(m.kind, m.data))
+			}
 		}
 	}
 	if (e.Name == "MessageBlock" || e.Name == "MessageSet") && len(s.valid) >= 12 {
